@@ -11,6 +11,7 @@ require (
 	github.com/dolthub/gozstd v0.0.0-20240423170813-23a2903bca63
 	github.com/dolthub/vitess v0.0.0-20260819175407-19559ab533b7
 	github.com/go-sql-driver/mysql v1.9.3
+	github.com/sirupsen/logrus v1.8.3
 	golang.org/x/sys v0.45.0
 )
 
@@ -122,7 +123,6 @@ require (
 	github.com/rivo/uniseg v0.2.0 // indirect
 	github.com/sergi/go-diff v1.1.0 // indirect
 	github.com/shirou/gopsutil/v4 v4.25.12 // indirect
-	github.com/sirupsen/logrus v1.8.3 // indirect
 	github.com/skratchdot/open-golang v0.0.0-20200116055534-eef842397966 // indirect
 	github.com/sony/gobreaker v0.5.0 // indirect
 	github.com/spf13/cast v1.7.1 // indirect
